@@ -14,8 +14,24 @@ def run(tier, seed):
     spec = emaster.make_spec(PID, 'c09', n_quick=500, n_thorough=15000,
                              rule_extra='content of every placement node compared with Master.cell after every '
                                         'cycle and restart')
+    # between-cycles invariant: Master/Handlers.v, Props/C09Handlers.v, harness/props/c09handlers.py
+    from . import c09handlers
+    spec['trusted'] = list(spec.get('trusted', [])) + list(c09handlers.TRUSTED)
+    spec['assumptions'] = list(spec.get('assumptions', [])) + list(c09handlers.ASSUMPTIONS)
+    inner = spec.get('extra')
+
+    def extra(r, cases, obs):
+        cov = inner(r, cases, obs) if inner else {}
+        u = c09handlers.stage(r, seed, tier)
+        cov['extra_obligations'] = cov.get('extra_obligations', 0) + u.pop('handler_obligations', 0)
+        cov.update(u)
+        return cov
+    spec['extra'] = extra
     core.standard_run(PID, tier, seed, spec)
 
 
 def replay_case(case):
+    if isinstance(case, dict) and case.get('engine') == 'E-master-c09handlers':
+        from . import c09handlers
+        return c09handlers.replay_case(case)
     return emaster.replay(PID, case)
